@@ -70,7 +70,8 @@ def main():
                 print("%s %s: exit=%d %s" % (sid, p, c.returncode, vio[0] if vio else "(no violation reported)"))
             results[sid] = res
         if inplace:
-            sh(["git", "-C", "/repo", "checkout", "--", "."])
+            # `git apply --3way` stages what it applies: restore index AND working tree
+            sh(["git", "-C", "/repo", "reset", "-q", "--hard", "HEAD"])
         else:
             sh(["git", "-C", "/repo", "worktree", "remove", "--force", repo])
         sh(["sh", "-c", "rm -rf /dev/shm/qb-vrf-* 2>/dev/null"])
